@@ -725,7 +725,10 @@ def rule_M4(ctx, fx):
                         ctx.ok("M4", inst, fi.where(n), "fresh value")
                     else:
                         if s[2] is None:
-                            raise AnalysisError("M4: %s: element store from a foreign source: %s" % (fi.qualname, u(n)))
+                            # `result.slot[k] = <value from a foreign mapping>`: the entry-wise spelling of
+                            # result.slot.update({k: <value> ...}) - same obligation, same depth table
+                            judge("%s.%s[…] = …" % (t.value.value.id, a), n, n.value, a, inserted=True, stmt="result.%s.update" % a)
+                            continue
                         need = al.need(s, None)
                         ctx.check(s[1] >= need, "M4", inst, fi.where(n), "%s shares the level-%d object of %s with the source (mutable down to level %d)" % (u(n.value)[:80], s[1], s[0], need), construct=fi.qualname, stmt="result.%s[…]" % a)
             elif isinstance(n, ast.Call) and isinstance(n.func, ast.Attribute):
@@ -816,6 +819,11 @@ def run(ctx):
     ctx.soft(rule_TS, owners=["tree.Tree", "tree_node.TreeNode", "visitors.PostOrderNodeUpdater", "visitors.PreOrderNodeRelabeller"])
     ctx._own_rules = set(ctx.rule_min)
     imported(ctx, C07.rule_V2)
+    # "both joint log-densities equal those of a freshly built tree": evaluating a density hands out the live root
+    # vector; a density (or a helper it calls) that writes into it leaves a stale value no edit refreshes (C03.I3)
+    from . import C03
+
+    imported(ctx, C03.rule_I3)
     # the incrementally maintained vectors come out of the memoised recursion: a cache that returns another
     # child multiset's result, or whose value was written through, differs from a from-scratch rebuild
     from . import _premises
@@ -858,6 +866,9 @@ SELFTEST = [
     {"name": "M4-to_dict-shares-data-lists", "kind": "break", "rule": "M4", "file": _T, "old": "            \"node_data\": {k: v.copy() for k, v in self._data.items()},", "new": "            \"node_data\": {k: v for k, v in self._data.items()},"},
     {"name": "M4-node-copy-shares-log_r", "kind": "break", "rule": "M4", "file": _N, "old": "        new.log_r = self.log_r.copy()", "new": "        new.log_r = self.log_r"},
     {"name": "M4-get_subtree-shares-data-list", "kind": "break", "rule": "M4", "file": _T, "old": "            new._data[node] = list(self._data[node])", "new": "            new._data[node] = self._data[node]"},
+    {"name": "M4-from_dict-entrywise-no-copy", "kind": "break", "rule": "M4", "file": _T, "old": "        new._data.update({k: v.copy() for k, v in tree_dict[\"node_data\"].items()})\n", "new": "        for k, v in tree_dict[\"node_data\"].items():\n            new._data[k] = v\n"},
+    {"name": "benign-from_dict-entrywise-copy", "kind": "benign", "file": _T, "old": "        new._data.update({k: v.copy() for k, v in tree_dict[\"node_data\"].items()})\n", "new": "        for k, v in tree_dict[\"node_data\"].items():\n            new._data[k] = v.copy()\n"},
+    {"name": "TS-from_dict-data-only-with-edges", "kind": "break", "rule": "TS", "file": _T, "old": "        new._data.update({k: v.copy() for k, v in tree_dict[\"node_data\"].items()})\n\n        _ = new_graph.add_node(TreeNode(grid_size, log_prior, cls._ROOT_NODE_NAME))\n\n        if len(tree_dict[\"graph\"]) > 0:\n", "new": "\n        _ = new_graph.add_node(TreeNode(grid_size, log_prior, cls._ROOT_NODE_NAME))\n\n        if len(tree_dict[\"graph\"]) > 0:\n            new._data.update({k: v.copy() for k, v in tree_dict[\"node_data\"].items()})\n"},
     {"name": "M4-from_dict-map-not-copied", "kind": "break", "rule": "M4", "file": _T, "old": "        new._node_indices = tree_dict[\"node_idx\"].copy()", "new": "        new._node_indices = tree_dict[\"node_idx\"]"},
     {"name": "M4-copy-shares-data-lists", "kind": "break", "rule": "M4", "file": _T, "old": "        new._data.update({k: v.copy() for k, v in self._data.items()})", "new": "        new._data.update(self._data)"},
     # ---- benign
